@@ -43,6 +43,8 @@ static int line_being_generated;
 static int push_state;
 static int push_start;
 
+static int generate_depth;	/* of i_generate_node() */
+
 static parse_node_t *branch_list[3];
 
 /* The switch instructions generated into A_INITIALIZER. Their operands and
@@ -471,6 +473,16 @@ void i_generate_node (parse_node_t * expr) {
 
   if (!expr)
     return;
+
+  /* The parser stack (YYMAXDEPTH) bounds what nests to the right, but a left
+   * recursive chain (a + b + c ..., x[0][1]..., a && b && ...) makes a tree as
+   * deep as the source is long, and this function follows it on the C stack. */
+  if (generate_depth >= MAX_TREE_DEPTH)
+    {
+      yyerror ("Expression too complex (nested too deeply).");
+      return;
+    }
+  generate_depth++;
 
   if (expr->line && expr->line != line_being_generated)
     switch_to_line (expr->line);
@@ -916,6 +928,7 @@ void i_generate_node (parse_node_t * expr) {
         fatal ("Unknown node %i in i_generate_node.\n", expr->kind);
       }
     }
+  generate_depth--;
 }
 
 static void
@@ -1211,6 +1224,7 @@ i_initialize_parser ()
   line_being_generated = 0;
   last_size_generated = 0;
   num_init_switches = 0;
+  generate_depth = 0;
 }
 
 void
